@@ -472,6 +472,52 @@ func c05Scenarios() []schedScenario {
 			return res, outc, nil
 		}})
 	}
+	// the default overflow strategy (drop) with an input buffer of one row: rows may be dropped, but a row is never
+	// delivered twice and the delivered ones keep their emission order
+	for _, strat := range []string{"drop", "expand"} {
+		strat := strat
+		sql := "SELECT id, a + 1 AS e FROM stream WHERE a > 0"
+		out = append(out, schedScenario{Name: "full-buffer-" + strat, Params: map[string]any{"sql": sql, "strategy": strat, "data_buffer": 1}, Run: func(ch sched.Chooser, local map[int]bool) (*sched.Result, string, *explore.Failure) {
+			var syncSeen []int
+			var execErr string
+			res := sched.Run(sched.Config{Chooser: ch, MaxSteps: 50000, Trace: traceFn()}, func() {
+				perf := smallPerf(strat, 1, 4, 2)
+				if strat == "expand" {
+					perf.BufferConfig.MaxBufferSize = 2
+				}
+				s := streamsql.New(streamsql.WithCustomPerformance(perf), streamsql.WithLogger(logger.NewDiscardLogger()))
+				if err := s.Execute(sql); err != nil {
+					execErr = err.Error()
+					return
+				}
+				s.AddSyncSink(func(rows []map[string]any) {
+					for _, r := range rows {
+						syncSeen = append(syncSeen, toInt(r["id"]))
+					}
+				})
+				for i := 1; i <= 3; i++ {
+					s.Emit(Row{"id": i, "a": i})
+				}
+				vtime.Sleep(250 * vtime.Millisecond)
+				sched.Quiesce()
+				s.Stop()
+				sched.Quiesce()
+			})
+			outc := fmt.Sprint(syncSeen)
+			if execErr != "" {
+				return res, outc, &explore.Failure{Signature: "C05|sched|exec", What: execErr}
+			}
+			if res.Status != sched.StatusOK {
+				return res, outc, &explore.Failure{Signature: "C05|sched|" + res.Status.String(), What: "execution ended with " + res.Status.String() + " " + firstLine(res.PanicVal) + " live=" + liveDesc(res)}
+			}
+			for i := 1; i < len(syncSeen); i++ {
+				if syncSeen[i] <= syncSeen[i-1] {
+					return res, outc, &explore.Failure{Signature: "C05|sched|full-buffer|row-twice-or-out-of-order|strategy=" + strat, What: fmt.Sprintf("rows 1,2,3 emitted into an input buffer of one row under strategy %s: the sync sink saw %v", strat, syncSeen), Observed: syncSeen}
+				}
+			}
+			return res, outc, nil
+		}})
+	}
 	return out
 }
 
